@@ -402,6 +402,8 @@ func genFile(r *rng.R, i int) (f *ach.File) {
 		NonASCII:   r.Chance(1, 4),
 		Addenda:    r.Chance(1, 2),
 		Offset:     r.Chance(1, 4),
+		// return batches balanced with an offset too (moov-io/ach issue 1010)
+		OffsetReturns: true,
 	}
 	switch kind {
 	case "MIX":
